@@ -1,14 +1,454 @@
 import Model.Util
 /-
-  Model/VecProto.lean — (stub) executable model; see DESIGN.md.  Core Lean only.
+  Model/VecProto.lean — executable protocol model of
+  `agilerl.vector.pz_async_vec_env.AsyncPettingZooVecEnv` (async state machine + worker faults).
+  Core Lean only.
+
+  What is modelled (read off the code, method by method):
+    * `_state ∈ {DEFAULT, WAITING_RESET, WAITING_STEP, WAITING_CALL}`, the `closed` flag, the guards
+      of every public method and the error class each guard raises;
+    * per worker: process status, the parent's end of the pipe (`open` / `None` after
+      `_raise_if_errors`), the replies readable from the pipe, the commands queued behind a
+      sleeping command, the per-command counters the fault script refers to;
+    * the global `error_queue`;
+    * `_poll_pipe_envs`, the `recv` loops, `_raise_if_errors`, `set_attr`, `close`/`close_extras`.
+
+  Explicit ASSUMPTIONS (OS / runtime behaviour, not derived; validated only by fault injection):
+    A1  a live worker answers a command "at once" (before the parent's next call);
+    A2  `send` to a worker whose process has ended raises `BrokenPipeError`, `send` to a pipe that
+        `_raise_if_errors` replaced by `None` raises `AttributeError`;
+    A3  `recv` from an ended worker returns what is still buffered, then raises `EOFError`;
+        `poll` on such a pipe is `True`;
+    A4  a scripted `sleep` outlasts every *timed* wait and is finite for an untimed one: a blocking
+        `recv`/`join` on a sleeping worker wakes it; a timed `poll` on it is `False`;
+    A5  `recv` from a live, idle worker with nothing buffered blocks forever (outcome `hang`);
+        `error_queue.get()` on an empty queue blocks forever;
+    A6  `Process.terminate()` ends a live or sleeping worker; `join` returns iff the process ends;
+    A7  errors of one batch enter the error queue in worker order.
+
+  `fixed = false` is the code before fixes/C13-close-after-worker-death.diff, `fixed = true` the
+  repaired code (waits reset `_state` when a pipe is dead; `close_extras` never propagates a pipe
+  or worker error and always terminates + joins).
 -/
+namespace VecProto
+
+inductive AState | default | wreset | wstep | wcall
+deriving DecidableEq, Repr
+
+/-- commands a worker understands (`close` is never the target of a scripted fault) -/
+inductive Cmd | reset | step | call | setattr | close
+deriving DecidableEq, Repr
+
+inductive Fault | raise (t : Nat) | sleep | kill
+deriving DecidableEq, Repr
+
+/-- at the `at`-th (0-based) `cmd` executed by this worker do `kind` -/
+structure FaultAt where
+  cmd : Cmd
+  at_ : Nat
+  kind : Fault
+deriving DecidableEq, Repr
+
+inductive WSt | alive | hung | exited
+deriving DecidableEq, Repr
+
+inductive Reply | okR | failR
+deriving DecidableEq, Repr
+
+/-- error classes seen by the caller -/
+inductive Exc
+  | alreadyPending      -- gymnasium.error.AlreadyPendingCallError
+  | noAsyncCall         -- gymnasium.error.NoAsyncCallError
+  | closedEnv           -- gymnasium.error.ClosedEnvironmentError
+  | timeout             -- multiprocessing.TimeoutError
+  | eof                 -- EOFError            (A3)
+  | brokenPipe          -- BrokenPipeError     (A2)
+  | attributeError      -- AttributeError      (A2: `None.send`)
+  | worker (t : Nat)    -- the exception type `t` raised inside a sub-environment
+deriving DecidableEq, Repr
+
+inductive Outcome | ok | err (e : Exc) | hang
+deriving DecidableEq, Repr
+
+/-- the error queue: (worker index, exception type) -/
+abbrev ErrQ := List (Nat × Nat)
+
+structure Worker where
+  idx : Nat
+  st : WSt := .alive
+  pipeOpen : Bool := true          -- parent's end: `false` = `None`/closed
+  inbox : List Reply := []         -- replies the parent can `recv` now
+  backlog : List Cmd := []         -- commands queued behind a sleeping command
+  cReset : Nat := 0
+  cStep : Nat := 0
+  cCall : Nat := 0
+  cSet : Nat := 0
+  faults : List FaultAt := []
+deriving DecidableEq, Repr
+
+def Worker.count (w : Worker) : Cmd → Nat
+  | .reset => w.cReset | .step => w.cStep | .call => w.cCall | .setattr => w.cSet | .close => 0
+
+def Worker.bump (w : Worker) : Cmd → Worker
+  | .reset => { w with cReset := w.cReset + 1 }
+  | .step => { w with cStep := w.cStep + 1 }
+  | .call => { w with cCall := w.cCall + 1 }
+  | .setattr => { w with cSet := w.cSet + 1 }
+  | .close => w
+
+def lookupFault (fs : List FaultAt) (c : Cmd) (k : Nat) : Option Fault :=
+  (fs.find? (fun f => f.cmd = c ∧ f.at_ = k)).map (·.kind)
+
+/-- a live worker executes one command (`_async_worker` loop body + its `except`/`finally`) -/
+def Worker.run (w : Worker) (c : Cmd) : Worker × ErrQ :=
+  match c with
+  | .close => ({ w with st := .exited, inbox := w.inbox ++ [.okR] }, [])
+  | _ =>
+    let w1 := w.bump c
+    match lookupFault w.faults c (w.count c) with
+    | none => ({ w1 with inbox := w1.inbox ++ [.okR] }, [])
+    | some (.raise t) => ({ w1 with st := .exited, inbox := w1.inbox ++ [.failR] }, [(w.idx, t)])
+    | some .kill => ({ w1 with st := .exited }, [])
+    | some .sleep => ({ w1 with st := .hung, backlog := [] }, [])
+
+/-- run queued commands while the worker stays alive; what is left stays queued if it sleeps again -/
+def Worker.runList (w : Worker) : List Cmd → Worker × ErrQ
+  | [] => (w, [])
+  | c :: cs =>
+    match w.st with
+    | .alive =>
+      let (w1, e1) := w.run c
+      match w1.st with
+      | .alive => let (w2, e2) := w1.runList cs; (w2, e1 ++ e2)
+      | .hung => ({ w1 with backlog := cs }, e1)
+      | .exited => (w1, e1)
+    | _ => (w, [])
+
+/-- the sleeping command finishes (reply ok), then the queued commands run -/
+def Worker.wake (w : Worker) : Worker × ErrQ :=
+  ({ w with st := .alive, inbox := w.inbox ++ [.okR], backlog := [] } : Worker).runList w.backlog
+
+/-- the parent's `pipe.send` reached the worker -/
+def Worker.deliver (w : Worker) (c : Cmd) : Worker × ErrQ :=
+  match w.st with
+  | .alive => w.run c
+  | .hung => ({ w with backlog := w.backlog ++ [c] }, [])
+  | .exited => (w, [])
+
+/-- wake a sleeping worker again and again until it is alive or gone (`fuel` ≥ queued commands + 1) -/
+def Worker.drain : Nat → Worker → Worker × ErrQ
+  | 0, w => (w, [])
+  | n + 1, w =>
+    match w.st with
+    | .hung => let (w1, e1) := w.wake; let (w2, e2) := Worker.drain n w1; (w2, e1 ++ e2)
+    | _ => (w, [])
+
+/-- `for pipe in parent_pipes: pipe.send(cmd)` — stops at the first failing send -/
+def sendAll (c : Cmd) : List Worker → List Worker × ErrQ × Option Exc
+  | [] => ([], [], none)
+  | w :: ws =>
+    if w.pipeOpen = false then (w :: ws, [], some .attributeError)
+    else if w.st = .exited then (w :: ws, [], some .brokenPipe)
+    else
+      let (w1, e1) := w.deliver c
+      let (ws1, e2, r) := sendAll c ws
+      (w1 :: ws1, e1 ++ e2, r)
+
+/-- close_extras: `if pipe is not None and not pipe.closed: pipe.send(("close", None))` -/
+def sendClose : List Worker → List Worker × ErrQ × Option Exc
+  | [] => ([], [], none)
+  | w :: ws =>
+    if w.pipeOpen = false then
+      let (ws1, e2, r) := sendClose ws
+      (w :: ws1, e2, r)
+    else if w.st = .exited then (w :: ws, [], some .brokenPipe)
+    else
+      let (w1, e1) := w.deliver .close
+      let (ws1, e2, r) := sendClose ws
+      (w1 :: ws1, e1 ++ e2, r)
+
+inductive Recv | got (r : Reply) | eof | block | noPipe
+deriving DecidableEq, Repr
+
+/-- one blocking `pipe.recv()` -/
+def Worker.recv (w : Worker) : Worker × ErrQ × Recv :=
+  if w.pipeOpen = false then (w, [], .noPipe)
+  else match w.inbox with
+    | r :: rest => ({ w with inbox := rest }, [], .got r)
+    | [] =>
+      match w.st with
+      | .exited => (w, [], .eof)
+      | .alive => (w, [], .block)
+      | .hung =>
+        let (w1, e1) := w.wake
+        match w1.inbox with
+        | r :: rest => ({ w1 with inbox := rest }, e1, .got r)
+        | [] => (w1, e1, .block)
+
+inductive RecvAll | done (rs : List Reply) | err (e : Exc) | hang
+deriving DecidableEq, Repr
+
+def RecvAll.cons (r : Reply) : RecvAll → RecvAll
+  | .done rs => .done (r :: rs)
+  | x => x
+
+/-- `[pipe.recv() for pipe in parent_pipes]` — stops at the first exception -/
+def recvAll : List Worker → List Worker × ErrQ × RecvAll
+  | [] => ([], [], .done [])
+  | w :: ws =>
+    match w.recv with
+    | (w1, e1, .got r) =>
+      let (ws1, e2, res) := recvAll ws
+      (w1 :: ws1, e1 ++ e2, res.cons r)
+    | (w1, e1, .eof) => (w1 :: ws, e1, .err .eof)
+    | (w1, e1, .block) => (w1 :: ws, e1, .hang)
+    | (w1, e1, .noPipe) => (w1 :: ws, e1, .err .attributeError)
+
+/-- close_extras: `if pipe is not None and not pipe.closed: pipe.recv()` -/
+def recvClose : List Worker → List Worker × ErrQ × RecvAll
+  | [] => ([], [], .done [])
+  | w :: ws =>
+    if w.pipeOpen = false then
+      let (ws1, e2, res) := recvClose ws
+      (w :: ws1, e2, res)
+    else match w.recv with
+    | (w1, e1, .got r) =>
+      let (ws1, e2, res) := recvClose ws
+      (w1 :: ws1, e1 ++ e2, res.cons r)
+    | (w1, e1, .eof) => (w1 :: ws, e1, .err .eof)
+    | (w1, e1, .block) => (w1 :: ws, e1, .hang)
+    | (w1, e1, .noPipe) => (w1 :: ws, e1, .err .attributeError)
+
+/-- `_poll_pipe_envs(timeout)` with a timeout: every pipe has something to read now -/
+def Worker.ready (w : Worker) : Bool :=
+  w.pipeOpen && (!w.inbox.isEmpty || w.st = .exited)
+
+def pollAll (ws : List Worker) : Bool := ws.all Worker.ready
+
+def closePipe (i : Nat) (ws : List Worker) : List Worker :=
+  ws.map (fun w => if w.idx = i then { w with pipeOpen := false } else w)
+
+def closePipes (is : List Nat) (ws : List Worker) : List Worker :=
+  is.foldl (fun acc i => closePipe i acc) ws
+
+def countFail (rs : List Reply) : Nat := rs.count .failR
+
+structure State where
+  fixed : Bool := true
+  astate : AState := .default
+  closed : Bool := false
+  ws : List Worker := []
+  errq : ErrQ := []
+deriving DecidableEq, Repr
+
+/-- `_raise_if_errors(successes)` followed by `self._state = DEFAULT` of the wait -/
+def raiseIfErrors (s : State) (rs : List Reply) : State × Outcome :=
+  let n := countFail rs
+  if n = 0 then ({ s with astate := .default }, .ok)
+  else if s.errq.length < n then (s, .hang)                       -- A5
+  else
+    let popped := s.errq.take n
+    let ws' := closePipes (popped.map (·.1)) s.ws
+    match popped.getLast? with
+    | some (_, t) => ({ s with ws := ws', errq := s.errq.drop n, astate := .default }, .err (.worker t))
+    | none => (s, .hang)
+
+/-- body of `reset_wait` / `step_wait` / `call_wait` after the guards; also the tail of `set_attr` -/
+def waitCore (s : State) (timed : Bool) : State × Outcome :=
+  if timed && !pollAll s.ws then ({ s with astate := .default }, .err .timeout)
+  else
+    match recvAll s.ws with
+    | (ws1, e, .hang) => ({ s with ws := ws1, errq := s.errq ++ e }, .hang)
+    | (ws1, e, .err x) =>
+      let st' := if s.fixed && x = .eof then AState.default else s.astate
+      ({ s with ws := ws1, errq := s.errq ++ e, astate := st' }, .err x)
+    | (ws1, e, .done rs) => raiseIfErrors { s with ws := ws1, errq := s.errq ++ e } rs
+
+def asyncOp (s : State) (c : Cmd) (target : AState) : State × Outcome :=
+  if s.closed then (s, .err .closedEnv)
+  else if s.astate ≠ .default then (s, .err .alreadyPending)
+  else
+    match sendAll c s.ws with
+    | (ws1, e, some x) => ({ s with ws := ws1, errq := s.errq ++ e }, .err x)
+    | (ws1, e, none) => ({ s with ws := ws1, errq := s.errq ++ e, astate := target }, .ok)
+
+def waitOp (s : State) (expected : AState) (timed : Bool) : State × Outcome :=
+  if s.closed then (s, .err .closedEnv)
+  else if s.astate ≠ expected then (s, .err .noAsyncCall)
+  else waitCore s timed
+
+def setAttrOp (s : State) : State × Outcome :=
+  if s.closed then (s, .err .closedEnv)
+  else if s.astate ≠ .default then (s, .err .alreadyPending)
+  else
+    match sendAll .setattr s.ws with
+    | (ws1, e, some x) => ({ s with ws := ws1, errq := s.errq ++ e }, .err x)
+    | (ws1, e, none) => waitCore { s with ws := ws1, errq := s.errq ++ e } false
+
+def terminateAll (ws : List Worker) : List Worker :=
+  ws.map (fun w => { w with st := .exited, pipeOpen := false })
+
+/-- `pipe.close()` for all, then `process.join()` for all (A4, A6) -/
+def joinAll : List Worker → List Worker × ErrQ × Bool
+  | [] => ([], [], true)
+  | w :: ws =>
+    let (w1, e1) := Worker.drain (w.backlog.length + 1) w
+    let (ws1, e2, okRest) := joinAll ws
+    ({ w1 with pipeOpen := false } :: ws1, e1 ++ e2, decide (w1.st = .exited) && okRest)
+
+/-- the graceful branch of `close_extras` and the final close/join.
+    result: `none` = finished, `some o` = raised / hung with outcome `o` -/
+def closeTail (s : State) (terminate : Bool) : State × Outcome :=
+  if terminate then ({ s with ws := terminateAll s.ws, closed := true }, .ok)
+  else
+    match sendClose s.ws with
+    | (ws1, e1, some x) =>
+      let s1 := { s with ws := ws1, errq := s.errq ++ e1 }
+      if s.fixed then ({ s1 with ws := terminateAll s1.ws, closed := true }, .ok)
+      else (s1, .err x)
+    | (ws1, e1, none) =>
+      match recvClose ws1 with
+      | (ws2, e2, .hang) => ({ s with ws := ws2, errq := s.errq ++ e1 ++ e2 }, .hang)
+      | (ws2, e2, .err x) =>
+        let s2 := { s with ws := ws2, errq := s.errq ++ e1 ++ e2 }
+        if s.fixed then ({ s2 with ws := terminateAll s2.ws, closed := true }, .ok)
+        else (s2, .err x)
+      | (ws2, e2, .done _) =>
+        match joinAll ws2 with
+        | (ws3, e3, true) => ({ s with ws := ws3, errq := s.errq ++ e1 ++ e2 ++ e3, closed := true }, .ok)
+        | (ws3, e3, false) => ({ s with ws := ws3, errq := s.errq ++ e1 ++ e2 ++ e3 }, .hang)
+
+/-- `close(timeout=…, terminate=…)`; `timed` = a timeout was given -/
+def closeOp (s : State) (timed terminate : Bool) : State × Outcome :=
+  if s.closed then (s, .ok)
+  else if s.astate = .default then closeTail s terminate
+  else
+    -- `function = getattr(self, f"{state}_wait"); function(timeout)`  (timeout = 0 if terminate)
+    match waitCore s (timed || terminate) with
+    | (s1, .ok) => closeTail s1 terminate
+    | (s1, .err .timeout) => closeTail s1 true
+    | (s1, .hang) => (s1, .hang)
+    | (s1, .err x) =>
+      if s.fixed then
+        -- a dead pipe forces termination; a worker's own exception is logged and the rest is
+        -- shut down gracefully
+        closeTail s1 (terminate || x = .eof || x = .brokenPipe)
+      else (s1, .err x)
+
+inductive Op
+  | resetAsync | resetWait (timed : Bool)
+  | stepAsync | stepWait (timed : Bool)
+  | callAsync | callWait (timed : Bool)
+  | setAttr
+  | close (timed terminate : Bool)
+deriving DecidableEq, Repr
+
+def State.step (s : State) : Op → State × Outcome
+  | .resetAsync => asyncOp s .reset .wreset
+  | .stepAsync => asyncOp s .step .wstep
+  | .callAsync => asyncOp s .call .wcall
+  | .resetWait t => waitOp s .wreset t
+  | .stepWait t => waitOp s .wstep t
+  | .callWait t => waitOp s .wcall t
+  | .setAttr => setAttrOp s
+  | .close t k => closeOp s t k
+
+/-- a `hang` never returns: nothing after it is executed -/
+def State.runOps (s : State) : List Op → State × List Outcome
+  | [] => (s, [])
+  | op :: ops =>
+    match s.step op with
+    | (s1, .hang) => (s1, [.hang])
+    | (s1, o) => let (s2, os) := s1.runOps ops; (s2, o :: os)
+
+def mkWorkers (n : Nat) (script : List (Nat × FaultAt)) : List Worker :=
+  (List.range n).map (fun i =>
+    { idx := i, faults := (script.filter (fun p => p.1 = i)).map (·.2) })
+
+def init (fixed : Bool) (n : Nat) (script : List (Nat × FaultAt)) : State :=
+  { fixed := fixed, ws := mkWorkers n script }
+
+end VecProto
+
+/-! ### line protocol -/
 namespace VecProto
 open Util
 
 structure IOState where
-  dummy : Nat := 0
+  st : State := {}
+  hung : Bool := false      -- a previous op never returned
+
+def showAState : AState → String
+  | .default => "default" | .wreset => "reset" | .wstep => "step" | .wcall => "call"
+
+def showExc : Exc → String
+  | .alreadyPending => "AlreadyPendingCallError"
+  | .noAsyncCall => "NoAsyncCallError"
+  | .closedEnv => "ClosedEnvironmentError"
+  | .timeout => "mp.TimeoutError"
+  | .eof => "EOFError"
+  | .brokenPipe => "BrokenPipeError"
+  | .attributeError => "AttributeError"
+  | .worker t => "worker:" ++ toString t
+
+def showOutcome : Outcome → String
+  | .ok => "ok" | .err e => "err:" ++ showExc e | .hang => "hang"
+
+def showState (s : State) : String :=
+  showAState s.astate ++ " closed=" ++ showBool s.closed
+    ++ " alive=" ++ String.join (s.ws.map (fun w => showBool (w.st ≠ .exited)))
+
+def parseCmd? : String → Option Cmd
+  | "reset" => some .reset | "step" => some .step | "call" => some .call
+  | "set_attr" => some .setattr | _ => none
+
+def parseBool? : String → Option Bool
+  | "0" => some false | "1" => some true | _ => none
+
+/-- `w cmd at kind arg` quintuples -/
+def parseScript? : List String → Option (List (Nat × FaultAt))
+  | [] => some []
+  | w :: c :: a :: k :: x :: rest =>
+    match parseNat? w, parseCmd? c, parseNat? a, parseNat? x, parseScript? rest with
+    | some w, some c, some a, some x, some tl =>
+      match k with
+      | "raise" => some ((w, { cmd := c, at_ := a, kind := .raise x }) :: tl)
+      | "sleep" => some ((w, { cmd := c, at_ := a, kind := .sleep }) :: tl)
+      | "kill" => some ((w, { cmd := c, at_ := a, kind := .kill }) :: tl)
+      | _ => none
+    | _, _, _, _, _ => none
+  | _ => none
+
+def parseOp? : List String → Option Op
+  | ["reset_async"] => some .resetAsync
+  | ["step_async"] => some .stepAsync
+  | ["call_async"] => some .callAsync
+  | ["set_attr"] => some .setAttr
+  | ["reset_wait", t] => (parseBool? t).map .resetWait
+  | ["step_wait", t] => (parseBool? t).map .stepWait
+  | ["call_wait", t] => (parseBool? t).map .callWait
+  | ["close", t, k] =>
+    match parseBool? t, parseBool? k with
+    | some t, some k => some (.close t k)
+    | _, _ => none
+  | _ => none
 
 def step (s : IOState) : List String → IOState × String
+  | "new" :: f :: n :: rest =>
+    match parseBool? f, parseNat? n, parseScript? rest with
+    | some f, some n, some sc =>
+      if n = 0 then (s, "reject")                  -- the real constructor needs ≥ 1 env_fn
+      else if sc.any (fun p => p.1 ≥ n) then (s, "bad-op")
+      else ({ st := init f n sc, hung := false }, "ok")
+    | _, _, _ => (s, "bad-op")
+  | "op" :: ws =>
+    match parseOp? ws with
+    | none => (s, "bad-op")
+    | some op =>
+      if s.hung then (s, "unreached")
+      else
+        let (st1, o) := s.st.step op
+        ({ st := st1, hung := o = .hang }, showOutcome o ++ " " ++ showState st1)
   | _ => (s, "bad-op")
 
 end VecProto
